@@ -17,7 +17,7 @@ theorem C18_fits_chunked (c : CallSt) (n : Nat) (input : Bytes)
   have hw : c.writer = { mode := .chunked, ended := false } := by
     cases hwr : c.writer with | mk m e => rw [hwr] at hm he; simp at hm he; simp [hm, he]
   unfold CallSt.writeBodyPhase
-  simp only [hw, BodyWriter.leftToSend, BodyWriter.write, Bool.and_false, Bool.false_eq_true, if_false]
+  simp only [hw, BodyWriter.overLimit, BodyWriter.leftToSend, BodyWriter.write, Bool.and_false, Bool.false_eq_true, if_false]
   by_cases hi : input = []
   · subst hi
     simp at hlen
@@ -46,7 +46,7 @@ theorem C18_sized (c : CallSt) (left n : Nat) (input : Bytes)
     have h1 : (!input.isEmpty && c.writer.ended) = false := by
       cases input <;> simp_all
     have h2 : decide (input.length > left) = false := by simp; omega
-    simp only [h1, BodyWriter.leftToSend, hm, h2, Bool.false_eq_true, if_false, BodyWriter.write, W.available,
+    simp only [h1, BodyWriter.overLimit, BodyWriter.leftToSend, hm, h2, Bool.false_eq_true, if_false, BodyWriter.write, W.available,
       List.length_nil, Nat.sub_zero]
     refine ⟨(({ out := [], cap := n } : W).tryWrite (input.take (min (min n input.length) left))).1.out, ?_⟩
     have : min (min n input.length) left = n := by omega
